@@ -36,9 +36,9 @@ Definition cfg_rows (bf : Z) : cfg (V := row) :=
 Definition obj_eqb_plain := obj_eqb_gen Z.eqb.
 Definition obj_eqb_rows := obj_eqb_gen row_eqb.
 
-Definition run_plain {A} (fuel : nat) (plan : Z -> outcome) (crash : option Z)
+Definition run_plain {A} (fuel : nat) (plan : list (fault)) (crash : option Z)
            (b : bucket Z) (p : prog Z A) :=
   run obj_eqb_plain fuel plan crash 0 0 b p [].
-Definition run_rows {A} (fuel : nat) (plan : Z -> outcome) (crash : option Z)
+Definition run_rows {A} (fuel : nat) (plan : list (fault)) (crash : option Z)
            (b : bucket row) (p : prog row A) :=
   run obj_eqb_rows fuel plan crash 0 0 b p [].
